@@ -127,7 +127,10 @@ typedef unsigned long uint64_t;
 
 typedef int (*cmpfun)(const void *, const void *, void *);
 #ifdef HAVE___BUILTIN_CTZ
-#define ntz(x) __builtin_ctz((x))
+/* The operand is a size_t word of the bit vector: count over the whole
+   word (__builtin_ctz is the unsigned int builtin and would look at the low
+   32 bits only), and give 0 for 0 like the table-based a_ctz_l below. */
+#define ntz(x) ((x) ? __builtin_ctzll((unsigned long long)(x)) : 0)
 #else
 static const char debruijn32[32] = {0,  1,  23, 2,  29, 24, 19, 3,  30, 27, 25,
                                     11, 20, 8,  4,  13, 31, 22, 28, 18, 26, 10,
